@@ -146,12 +146,13 @@ def run(ctx):
         "whitespace runs are never matched by the URL / e-mail regexes (hypothesis of C24_urlize_href_no_space, checked by the anchor parser on real output)",
         "MarkupSafe's Markup methods (+, %, join, replace, slicing) escape plain operands (modelled for indent / replace / join, compared behaviourally)",
     ]
-    ctx.proof("C24")
+    from . import filt_common as fcm
     # T5: the current source of the HTML-producing cores as Lib/PyHtml terms = the model functions
     import os
     import sys
     sys.path.insert(0, os.path.join(lib.ROOT, "gen"))
     import filt_translate_html as fth
+    ctx.pending_parts = []
     for which, n in (("tojson", 1), ("forceescape", 1), ("xmlattr", 3), ("indent", 6), ("urlize", 3)):
         name = "Gen_filt_" + which
         try:
@@ -162,9 +163,9 @@ def run(ctx):
             ctx.broken.append(f"translator gen/filt_translate_html.py: the source of {which} left the translatable "
                               f"vocabulary or the shape the equation is stated for: {e}")
             continue
-        ok, out = ctx.coq_obligation(name, vtext, n_obligations=n)
-        if ok:
-            ctx.trusted.append(f"{name} (source term = model function, all inputs): " + " ".join(out.split()))
+        ctx.pending_parts.append((which.capitalize(), vtext, n))
+    from .c22 import flush_obligations
+    bg = fcm.Background(lambda: (ctx.proof("C24"), flush_obligations(ctx, "Gen_filt_c24")))
     env = jinja2.Environment()
     aenv = jinja2.Environment(autoescape=True)
     penv = jinja2.Environment(autoescape=True)
@@ -237,7 +238,8 @@ def run(ctx):
             ctx.validated()
 
     # ---------------- xmlattr
-    keys = [s for s in S if len(s) <= 2 and s] + ["class", "a b", "a/b", "a>b", "a=b", "a\tb", "a\x0cb", "a b", "a b", "on<x"]
+    keys = [s for s in S if len(s) <= 2 and s] + ["class", "a b", "a/b", "a>b", "a=b", "a\u2003b", "on<x"] \
+        + ["class" + c + "onclick" for c in " \t\n\r\x0b\x0c\x1c\x1f\x85\xa0"]
     vals = [("p", "x"), ("p", '"<'), ("m", "<b>"), ("p", "a'b&"), (None, None), ("p", 42)]
     cases = []
     for k in keys:
@@ -415,6 +417,144 @@ def run(ctx):
                 ctx.reject(case, "a plain argument put a markup character into a safe result", None)
             else:
                 ctx.validated()
+    matrix(ctx, jinja2)
+    bg.join()
+
+
+class HasHtml:
+    """an object with an __html__ method (treated as safe by escape, forceescape, join, ...)"""
+    def __init__(self, s):
+        self.s = s
+
+    def __html__(self):
+        return self.s
+
+    def __str__(self):
+        return self.s
+
+    def __repr__(self):
+        return f"HasHtml({self.s!r})"
+
+
+class HasHtmlMarkup(HasHtml):
+    """the usual widget / form-field case: __html__ returns a Markup instance"""
+    def __html__(self):
+        from markupsafe import Markup
+        return Markup(self.s)
+
+
+class StrSub(str):
+    pass
+
+
+def matrix(ctx, jinja2):
+    """every enumerated filter through every spelling / entry point / environment (plain and autoescape
+    groups) and twice on the same environments; results of the autoescape group that are safe strings are
+    additionally judged: a plain argument must not have put a markup character into them"""
+    import types
+    from markupsafe import Markup, escape
+    from .filt_matrix import Matrix
+    mx = Matrix(ctx, jinja2, autoescape_group=True)
+    bad = ["<script>", "\"'&", "a b", "x"]
+    texts = ["<b>x</b> & 'y'", "plain", ""]
+    kinds = [str, Markup, StrSub, HasHtml, HasHtmlMarkup]
+
+    def judge_auto(res, case, safe_input_chars):
+        for way, text in res.items():
+            if way.startswith("auto") and text.startswith("Markup:"):
+                body = text[len("Markup:"):]
+                extra = [c for c in "<>" if body.count(c) > safe_input_chars.count(c)]
+                if extra:
+                    ctx.reject(dict(case, way=way), f"a plain argument put {extra[0]!r} into a safe result: {body[:70]}", None)
+                    return
+    try:
+        for t in texts:
+            for K in kinds:
+                v = K(t)
+                html = str(v.__html__()) if hasattr(v, "__html__") else str(v)
+                for f in ("escape", "e"):
+                    mx.apply("C24", f, v, (), (), expect=lambda v=v, html=html: Markup(html) if hasattr(v, "__html__") else escape(str(v)))
+                # forceescape escapes the markup form of its input, whatever its __html__ returns
+                mx.apply("C24", "forceescape", v, (), (), expect=lambda html=html: escape(html))
+                for f in ("safe", "string", "striptags"):
+                    mx.apply("C24", f, v, (), ())
+                mx.apply("C24", "urlize", v, (), ())
+        for v in (42, None, True, 1.5, jinja2.Undefined(name="u"), ["<a>", {"k": "</script>"}], ("t", 1), {"<k>": ["'", "&"]}, "</script>", Markup("<i>")):
+            for f in ("escape", "forceescape"):
+                if not isinstance(v, (list, tuple, dict)):
+                    mx.apply("C24", f, v, (), ())
+            if not isinstance(v, jinja2.Undefined):
+                for a in ((), (None,), (2,)):
+                    mx.apply("C24", "tojson", v, a, ("indent",))
+        for d in ({"class": "a b", "id": "<x>", "skip": None, "u": jinja2.Undefined(name="q"), "n": 3, "m": Markup("<m>")}, {}, {"a b": 1}, {"a/b": 1},
+                  {"on>x": "y"}, {"k=": 1}, {"data-x": "\"q\"", "t": True}):
+            for make in (dict, types.MappingProxyType):
+                for a in ((), (True,), (False,)):
+                    mx.apply("C24", "xmlattr", make(dict(d)), a, ("autospace",))
+        urls = ["see http://a.example/x?y=1&z=<2> and www.x.org, mail foo@example.com or tel:+1-555\r\nftp://h/p", "<b>www.evil.com</b> \u2028tel:12"]
+        for t in urls:
+            for K in (str, StrSub):
+                for a in ((), (20,), (None, True), (None, False, "_blank"), (12, True, "_top", "me <x>"), (None, False, None, None, ["tel:", "ftp:"])):
+                    mx.apply("C24", "urlize", K(t), a, ("trim_url_limit", "nofollow", "target", "rel", "extra_schemes"))
+        # plain arguments next to a safe string (judged in the autoescape group)
+        for si in (Markup("a\nb c"), Markup("one two three four"), HasHtml("h h")):
+            chars = str(si.__html__() if hasattr(si, "__html__") else si)
+            for b in bad:
+                for B in (str, StrSub):
+                    arg = B(b)
+                    for f, a, n in (("indent", (arg, True, True), ("width", "first", "blank")),
+                                    ("replace", (" ", arg), ("old", "new", "count")), ("replace", (" ", arg, 1), ("old", "new", "count")),
+                                    ("truncate", (5, True, arg, 0), ("length", "killwords", "end", "leeway")),
+                                    ("wordwrap", (3, True, arg), ("width", "break_long_words", "wrapstring")),
+                                    ("center", (9,), ("width",)), ("trim", (arg,), ("chars",))):
+                        if isinstance(si, HasHtml) and f not in ("replace",):
+                            continue
+                        res = mx.apply("C24", f, si, a, n)
+                        judge_auto(res, {"filter": f, "safe_input": chars, "argument": b}, chars)
+                    res = mx.apply("C24", "join", [si, arg, Markup("<i>")], (arg,), ("d",), fresh_value=lambda si=si, arg=arg: [si, arg, Markup("<i>")])
+                    judge_auto(res, {"filter": "join", "safe_input": chars, "argument": b}, chars + "<i>")
+                    res = mx.apply("C24", "format", Markup("<i>%s</i> %s"), (arg, si), ())
+                    judge_auto(res, {"filter": "format", "safe_input": chars, "argument": b}, "<i></i>" + chars)
+                    res = mx.apply("C24", "format", Markup("<i>%(a)s</i>"), {"a": arg}, ())
+                    judge_auto(res, {"filter": "format", "safe_input": chars, "argument": b}, "<i></i>")
+        mx.history_pass(every_fresh=5)
+    finally:
+        mx.close()
+    # configuration history on ONE environment (and an overlay made before the changes): urlize and tojson
+    # read env.policies at every application
+    import json as _json
+    env = jinja2.Environment(autoescape=True)
+    ov = env.overlay()
+    text = "go www.x.org tel:12"
+    value = {"b": "</script>", "a": ["'", 1]}
+    steps = [({"urlize.rel": "noopener", "urlize.target": None, "urlize.extra_schemes": None}, {"sort_keys": True}),
+             ({"urlize.rel": "nofollow <x>", "urlize.target": "_blank", "urlize.extra_schemes": ["tel:"]}, {"sort_keys": False, "indent": 1}),
+             ({"urlize.rel": None, "urlize.target": '"q', "urlize.extra_schemes": None}, {"sort_keys": True}),
+             ({"urlize.rel": "noopener", "urlize.target": None, "urlize.extra_schemes": None}, {"sort_keys": True})]
+    for pol, jkw in steps:
+        env.policies.update(pol)
+        env.policies["json.dumps_kwargs"] = dict(jkw)
+        fresh = jinja2.Environment(autoescape=True)
+        fresh.policies.update(pol)
+        fresh.policies["json.dumps_kwargs"] = dict(jkw)
+        for which, e in (("environment", env), ("overlay", ov)):
+            for f, v in (("urlize", text), ("tojson", value)):
+                ctx.count("policy_history")
+                ctx.case(key=("policy_history", which, f, repr(pol), repr(jkw)))
+                want = str(fresh.call_filter(f, v))
+                got = str(e.call_filter(f, v))
+                got_t = e.from_string("{{ v|" + f + " }}").render(v=v)
+                w = None
+                if got != want or got_t != want:
+                    w = f"after changing the policies on the same environment {f} gives {got[:70]!r}, a fresh environment gives {want[:70]!r}"
+                elif f == "urlize":
+                    w = judge_urlize(v, got, " ".join(sorted(set((pol["urlize.rel"] or "").split()))) or None, pol["urlize.target"], None, escape)
+                elif any(c in got for c in META) or _json.loads(got) != value:
+                    w = "tojson output has a metacharacter or does not parse back"
+                if w:
+                    ctx.reject({"filter": f, "policies": repr(pol), "json.dumps_kwargs": repr(jkw), "through": which}, w, None)
+                else:
+                    ctx.validated()
 
 
 def replay(ctx, data):
